@@ -153,7 +153,11 @@ func genC01(t *Tape, tier string) *Scenario {
 			steps[len(steps)-4].Pre = 20 * time.Second
 			sc.Strata = []string{"pause-longer-than-WriteTimeout"}
 		}
-		cp.Data = append(cp.Data, DataPlan{ReadSizes: drawReadSizes(t), ParkReads: drawParks(t)})
+		dp := DataPlan{ReadSizes: drawReadSizes(t), ParkReads: drawParks(t)}
+		if t.Chance(1, 8) {
+			dp.ReadMode = readCopy // a backend that copies the message with io.Copy
+		}
+		cp.Data = append(cp.Data, dp)
 	}
 	steps = append(steps, Step{Kind: kQuit, Data: []byte("QUIT\r\n"), Wait: 1})
 	cs.Steps = steps
